@@ -10,6 +10,14 @@ LP-duality certificate (cert_check) per case.
 
 Inputs are matrices of dyadic rationals num / 2^shift.  The implementation gets Python ints (shift = 0,
 as_float = False) or floats; the model gets the integer matrix `num` (see ctx.notes for why that is exact).
+
+Round-2 hardening families (HARDENING.md): M magnitudes (k*2^e up to 2^200, 1e9, 2^44+k, 1+k*2^-42 and other
+differences of 1e-13..1e-9, and an INEXACT stream - ints beyond 2^53, decimal floats - judged with the 1e-9
+tolerance and kept out of the Coq correspondence), I containers (tuples, ranges, array.array, deque, a minimal
+user Sequence, shared row objects), S structured instances of 17..257 rows with the optimum known by
+construction, O `minimize` given as 0/1, A input-not-modified + repeated / interleaved calls on one object,
+H event-directed search with an instrumented reference port (long augmenting paths, all matched columns
+visited, negative first delta, slack relaxations that improve a finite slack, ties).
 """
 import itertools
 import json
@@ -81,6 +89,281 @@ def gen_case(rng, big=False):
     return {"num": num, "shift": sh, "minimize": rng.random() < 0.5, "as_float": sh > 0 or rng.random() < 0.5, "kind": kind}
 
 
+# ---------------------------------------------------------------- round-2 families (HARDENING.md)
+def _shape(rng, hi=5):
+    r = rng.random()
+    if r < 0.4:
+        n = rng.randint(1, hi)
+        return n, n
+    return rng.randint(1, hi), rng.randint(1, hi)
+
+
+def gen_magnitude(rng):
+    """M, exact stream: every intermediate value of the algorithm is exactly representable in binary64."""
+    nr, nc = _shape(rng)
+    fam = rng.choice(["pow", "pow", "1e9", "2p31", "2p44", "2p53row", "tiny42", "tiny42", "tiny", "tiny"])
+    sh = 0
+    if fam == "pow":          # small multiples of a large power of two: 2^31 .. 2^200 (>= 1e18 from 2^60 on)
+        e = rng.choice([31, 40, 50, 53, 60, 60, 62, 63, 64, 80, 200])
+        lo = rng.choice([-9, -3, 0, 1])
+        num = [[rng.randint(lo, 9) << e for _ in range(nc)] for _ in range(nr)]
+    elif fam == "1e9":        # products would overflow 2^53, sums do not
+        num = [[rng.choice([10**9, -10**9, 2 * 10**9, 10**9 + 7, 999999937]) + rng.randint(-3, 3) for _ in range(nc)] for _ in range(nr)]
+    elif fam == "2p31":
+        num = [[rng.choice([2**31, -2**31, 2**31 - 1, 2**32, 2**31 + 1]) * rng.randint(-2, 2) + rng.randint(-1, 1) for _ in range(nc)] for _ in range(nr)]
+    elif fam == "2p44":       # huge + tiny in one number
+        num = [[rng.choice([2**44, -2**44, 2**45, 0]) + rng.randint(-5, 5) for _ in range(nc)] for _ in range(nr)]
+    elif fam == "2p53row":    # at the edge of exact integers: a single row or column, no sums beyond one entry
+        k = rng.randint(1, 6)
+        vals = [2**52 + rng.randint(-6, 6) for _ in range(k)]     # sums of two entries are still exact
+        num = [vals] if rng.random() < 0.5 else [[x] for x in vals]
+    elif fam == "tiny42":     # entries that differ by less than 1e-12: base + k * 2^-42
+        sh = 42
+        base = rng.choice([0, 1, 1, 2, 7, 64, -1, -64])
+        num = [[base * 2**sh + rng.randint(-6, 6) for _ in range(nc)] for _ in range(nr)]
+    else:                     # differences between 1e-16 and 1e-9 around moderate values
+        sh = rng.choice([30, 33, 35, 38, 40, 45, 48])
+        base = rng.choice([0, 1, 3, 16, -5])
+        while (abs(base) + 2) * 2**sh * (2 * (nr + nc) + 2) >= 2**53:     # keep every path sum / potential exactly representable
+            sh -= 1
+        num = [[(base + rng.randint(0, 1)) * 2**sh + rng.randint(-4, 4) for _ in range(nc)] for _ in range(nr)]
+    as_float = True if sh else rng.choice([True, False, "mixed"])
+    return {"num": num, "shift": sh, "minimize": rng.random() < 0.5, "as_float": as_float, "kind": "M:" + fam}
+
+
+def gen_inexact(rng):
+    """M, inexact stream: exact VALUES of the inputs are known (ints / the rational value of each float) but the float
+    computation rounds; judged with the 1e-9 tolerance, not part of the Coq correspondence."""
+    nr, nc = _shape(rng, 4)
+    fam = rng.choice(["int_1e18", "int_2p53", "int_mixed", "decimal", "decimal", "decimal_small"])
+    if fam == "int_1e18":
+        num = [[10**18 * rng.randint(1, 9) + rng.randint(-10**6, 10**6) for _ in range(nc)] for _ in range(nr)]
+        sh, af = 0, False
+    elif fam == "int_2p53":
+        num = [[2**53 + rng.randint(-3, 3) + rng.choice([0, 2**53]) for _ in range(nc)] for _ in range(nr)]
+        sh, af = 0, False
+    elif fam == "int_mixed":
+        num = [[rng.choice([2**60, -2**60, 2**61, 10**18, 1, 0, -1, 3]) for _ in range(nc)] for _ in range(nr)]
+        sh, af = 0, rng.choice([False, "mixed"])
+    else:
+        pool = ([0.1, 0.2, 0.3, 0.7, 1.1, 2.675, 0.30000000000000004, 1e-9, 0.1 + 0.2, 1 / 3] if fam == "decimal"
+                else [1e-12, 3e-12, 1e-10, 1e-9, 2e-9, 1 + 1e-12, 1 + 1e-9, 1.0])
+        vals = [[rng.choice(pool) * rng.choice([1, 1, -1, 2]) for _ in range(nc)] for _ in range(nr)]
+        frs = [[Fraction(x) for x in r] for r in vals]
+        sh = max(f.denominator.bit_length() - 1 for r in frs for f in r)
+        num = [[int(f * (1 << sh)) for f in r] for r in frs]
+        af = True
+    return {"num": num, "shift": sh, "minimize": rng.random() < 0.5, "as_float": af, "kind": "Mx:" + fam, "inexact": True, "nocoq": True}
+
+
+CONTAINERS = ["tuple", "list_of_tuples", "range", "array", "deque", "seq", "shared"]
+
+
+def gen_iterable(rng):
+    """I / A: the same kind of matrices handed over in other Sequence types; shared row objects."""
+    cont = rng.choice(CONTAINERS)
+    c = gen_case(rng)
+    if cont == "range":     # rows are arithmetic progressions
+        nr, nc = _shape(rng, 6)
+        nc = max(nc, 2)
+        num = []
+        for _ in range(nr):
+            a, d = rng.randint(-9, 9), rng.choice([-3, -2, -1, 1, 2, 3])
+            num.append([a + d * j for j in range(nc)])
+        c = {"num": num, "shift": 0, "minimize": rng.random() < 0.5, "as_float": False, "kind": "range"}
+    elif cont == "shared":
+        nr, nc = _shape(rng, 6)
+        num, _ = _entries(rng, "duprows", max(nr, 2), nc)
+        c = {"num": num, "shift": 0, "minimize": rng.random() < 0.5, "as_float": rng.random() < 0.5, "kind": "duprows"}
+    c["container"] = cont
+    c["kind"] = "I:" + cont
+    return c
+
+
+def gen_option(rng):
+    """O / A: `minimize` given as 0 / 1, and interleaved calls with both option values on one input object."""
+    c = gen_case(rng)
+    c["minimize"] = rng.choice([0, 1, True, False])
+    c["seq"] = rng.choice(["plain", "flipped_first"])
+    c["kind"] = "O:" + type(c["minimize"]).__name__ + ":" + c["seq"]
+    return c
+
+
+def gen_structured(rng, nr, nc, minimize, coq):
+    """S: the optimum is known by construction.  c_ij = a_i + b_j + e_ij with e = 0 on the planted matching and e >= 1
+    elsewhere (b = 0 for rectangular shapes so that the choice of columns / rows does not matter); negated for maximize."""
+    small = min(nr, nc)
+    a = [rng.randint(-50, 50) for _ in range(nr)]
+    b = [rng.randint(-50, 50) if nr == nc else 0 for _ in range(nc)]
+    if nr != nc:
+        a = [rng.randint(-50, 50) if nr <= nc else 0 for _ in range(nr)]
+        b = [rng.randint(-50, 50) if nc < nr else 0 for _ in range(nc)]
+    if nr <= nc:
+        cols = rng.sample(range(nc), nr)
+        assign = cols
+    else:
+        rows = rng.sample(range(nr), nc)
+        assign = [-1] * nr
+        for j, i in enumerate(rows):
+            assign[i] = j
+    num = [[a[i] + b[j] + (0 if assign[i] == j else rng.randint(1, 9)) for j in range(nc)] for i in range(nr)]
+    opt = sum(num[i][assign[i]] for i in range(nr) if assign[i] != -1)
+    if not minimize:
+        num = [[-x for x in r] for r in num]
+        opt = -opt
+    c = {"num": num, "shift": 0, "minimize": minimize, "as_float": rng.random() < 0.5, "kind": f"S:{max(nr, nc)}",
+         "expect_opt": opt, "expect_assign": assign, "big": True, "timeout": 20.0}
+    if not coq:
+        c["nocoq"] = True
+    return c
+
+
+def structured_cases(rng, big):
+    out = []
+    for n, coq in [(17, True), (18, True), (33, True), (65, False), (129, False), (257, False)] + ([(400, False)] if big else []):
+        out.append(gen_structured(rng, n, n, rng.random() < 0.5, coq))
+    for nr, nc, coq in [(17, 40, True), (40, 17, True), (20, 130, False), (130, 20, False), (1, 257, False), (257, 1, False)]:
+        out.append(gen_structured(rng, nr, nc, rng.random() < 0.5, coq))
+    return out
+
+
+# ---------------------------------------------------------------- H: instrumented reference port (events only; it judges nothing)
+def port_events(num, minimize):
+    """A direct port of the e-maxx loop on exact integers that reports rare internal events."""
+    nr = len(num)
+    nc = len(num[0]) if nr else 0
+    ev = {}
+    if not nr or not nc:
+        return ev
+    n = max(nr, nc)
+    mv = max(x for r in num for x in r)
+    C = [[(num[i][j] if minimize else mv - num[i][j]) if i < nr and j < nc else 0 for j in range(n)] for i in range(n)]
+    u = [0] * (n + 1)
+    v = [0] * (n + 1)
+    p = [0] * (n + 1)
+    way = [0] * (n + 1)
+    INF = None
+    rematch = [0] * (n + 1)
+
+    def hit(k, val=1):
+        ev[k] = max(ev.get(k, 0), val)
+
+    for i in range(1, n + 1):
+        p[0] = i
+        j0 = 0
+        minv = [INF] * (n + 1)
+        used = [False] * (n + 1)
+        rounds = zero = improve = 0
+        while p[j0] != 0:
+            rounds += 1
+            used[j0] = True
+            i0 = p[j0]
+            delta = INF
+            j1 = 0
+            for j in range(1, n + 1):
+                if not used[j]:
+                    cur = C[i0 - 1][j - 1] - u[i0] - v[j]
+                    if minv[j] is INF or cur < minv[j]:
+                        if minv[j] is not INF:
+                            improve += 1
+                            hit("improve_small" if minv[j] - cur <= 1 else "improve")
+                        minv[j] = cur
+                        way[j] = j0
+                    elif cur == minv[j]:
+                        hit("relax_tie")
+                    if delta is INF or minv[j] < delta:
+                        delta = minv[j]
+                        j1 = j
+                    elif minv[j] == delta:
+                        hit("delta_tie")
+            if delta < 0:
+                hit("neg_delta_first" if rounds == 1 else "neg_delta_later")
+            if delta == 0:
+                zero += 1
+            for j in range(n + 1):
+                if used[j]:
+                    u[p[j]] += delta
+                    v[j] -= delta
+                else:
+                    if minv[j] is not INF:
+                        minv[j] -= delta
+            j0 = j1
+        hit("rounds", rounds)
+        if rounds == i and i >= 3:
+            hit("rounds_all", i)
+        hit("zero_deltas", zero)
+        hit("improves", improve)
+        plen = 0
+        while j0:
+            j1 = way[j0]
+            if p[j1] > nr or j0 > nc:
+                hit("dummy_on_path")
+            p[j0] = p[j1]
+            rematch[p[j0]] += 1
+            j0 = j1
+            plen += 1
+        hit("path", plen)
+    hit("rematch", max(rematch))
+    return ev
+
+
+def event_keys(ev):
+    ks = set()
+    for k, val in ev.items():
+        if k in ("path", "rounds", "rounds_all", "zero_deltas", "improves", "rematch"):
+            for t in range(3, min(val, 9) + 1):
+                ks.add(f"{k}>={t}")
+        else:
+            ks.add(k)
+    return ks
+
+
+def event_directed(rng, budget, climb):
+    """Random candidates + hill climbing on (path length, rounds, improvements); keep per event the smallest witnesses."""
+    best = {}          # event key -> list of (size, case)
+    pool = []
+
+    def consider(c):
+        ev = port_events(c["num"], c["minimize"])
+        ks = event_keys(ev)
+        size = len(c["num"]) * (len(c["num"][0]) if c["num"] else 0)
+        for k in ks:
+            lst = best.setdefault(k, [])
+            if len(lst) < 3:
+                lst.append((size, c))
+            else:
+                w = max(range(3), key=lambda t: lst[t][0])
+                if size < lst[w][0]:
+                    lst[w] = (size, c)
+        return ev.get("path", 0) * 3 + ev.get("rounds", 0) + ev.get("improves", 0) + 2 * ev.get("zero_deltas", 0), ks
+
+    for _ in range(budget):
+        c = gen_case(rng)
+        if c["shift"] or not c["num"] or not c["num"][0]:
+            continue
+        sc, _ = consider(c)
+        pool.append((sc, c))
+    pool.sort(key=lambda t: -t[0])
+    for sc, c in pool[:6]:
+        cur, cur_sc = c, sc
+        for _ in range(climb):
+            n2 = [list(r) for r in cur["num"]]
+            i, j = rng.randrange(len(n2)), rng.randrange(len(n2[0]))
+            n2[i][j] += rng.choice([-3, -2, -1, 1, 2, 3])
+            c2 = dict(cur, num=n2)
+            sc2, _ = consider(c2)
+            if sc2 >= cur_sc:
+                cur, cur_sc = c2, sc2
+    out, seen = [], set()
+    for k in sorted(best):
+        for _, c in best[k]:
+            key = _canon(c)
+            if key not in seen:
+                seen.add(key)
+                out.append(dict(c, kind="H:" + k.split(">")[0]))
+    return out, {k: len(v) for k, v in best.items()}
+
+
 def fixed_cases():
     out = []
 
@@ -111,26 +394,144 @@ def fixed_cases():
         add([[4, 1, 3], [2, 0, 5], [3, 2, 2]], mz)
         add([[7, 7, 7, 1], [7, 7, 1, 7], [7, 1, 7, 7], [1, 7, 7, 7]], mz)
         add([[1, 2, 3, 4], [2, 3, 4, 5], [3, 4, 5, 6], [4, 5, 6, 8]], mz)
+        # magnitudes: entries >= 1e18 (multiples of 2^60), differences < 1e-12 (k * 2^-42), 2^53 edge, 1e9
+        add([[6 << 60, 1 << 60]], mz, as_float=True, kind="M:fixed")
+        add([[4 << 60, 1 << 60], [2 << 60, 3 << 60]], mz, kind="M:fixed")
+        add([[-(4 << 60), 1 << 60], [2 << 60, -(3 << 60)], [0, 5 << 60]], mz, as_float="mixed", kind="M:fixed")
+        add([[2**42 + 2], [2**42 + 3]], mz, shift=42, as_float=True, kind="M:fixed")
+        add([[2**42], [2**42 + 1], [2**42 + 1]], mz, shift=42, as_float=True, kind="M:fixed")
+        add([[2**42 + 3, 2**42 + 1], [2**42 + 2, 2**42 + 5]], mz, shift=42, as_float=True, kind="M:fixed")
+        add([[2**53, 2**53 - 1, 2**53 - 2]], mz, kind="M:fixed")          # one row: single entries only
+        add([[10**9, 2 * 10**9], [10**9 + 7, 10**9]], mz, kind="M:fixed")
+        add([[2**44 + 1, 2**44], [2**44, 2**44 + 1]], mz, as_float=True, kind="M:fixed")
     return out
 
 
 # ---------------------------------------------------------------- the implementation
-def to_input(case):
+def _values(case):
     sh = case["shift"]
-    if case["as_float"] or sh:
-        return [[x / (1 << sh) for x in row] for row in case["num"]]   # exact: |x| < 2^53, power-of-two divisor
-    return [list(row) for row in case["num"]]
+    af = case.get("as_float", False)
+    rows = []
+    for i, row in enumerate(case["num"]):
+        if sh:
+            rows.append([x / (1 << sh) for x in row])            # correctly rounded; exact when representable
+        elif af == "mixed":
+            rows.append([float(x) if (i + j) % 2 == 0 else x for j, x in enumerate(row)])
+        elif af:
+            rows.append([float(x) for x in row])
+        else:
+            rows.append(list(row))
+    return rows
+
+
+class _Seq:
+    """A minimal read-only collections.abc.Sequence (len, integer index, iteration) - no list methods."""
+
+    def __init__(self, items):
+        self._items = tuple(items)
+
+    def __len__(self):
+        return len(self._items)
+
+    def __getitem__(self, i):
+        if not isinstance(i, int):
+            raise TypeError("only integer indices")
+        return self._items[i]
+
+    def __iter__(self):
+        return iter(self._items)
+
+    def __eq__(self, other):
+        return isinstance(other, _Seq) and self._items == other._items
+
+    def __repr__(self):
+        return "Seq" + repr(self._items)
+
+
+def _register_seq():
+    from collections.abc import Sequence
+    Sequence.register(_Seq)
+
+
+def to_input(case):
+    rows = _values(case)
+    cont = case.get("container", "list")
+    if cont == "tuple":
+        return tuple(tuple(r) for r in rows)
+    if cont == "list_of_tuples":
+        return [tuple(r) for r in rows]
+    if cont == "range":   # rows that are arithmetic progressions of ints become range objects
+        out = []
+        for r in rows:
+            if len(r) >= 2 and all(isinstance(x, int) for x in r) and r[1] != r[0] and all(r[k + 1] - r[k] == r[1] - r[0] for k in range(len(r) - 1)):
+                out.append(range(r[0], r[0] + (r[1] - r[0]) * len(r), r[1] - r[0]))
+            else:
+                out.append(r)
+        return out
+    if cont == "array":
+        import array
+        out = []
+        for r in rows:
+            if all(isinstance(x, int) and abs(x) < 2**62 for x in r):
+                out.append(array.array("q", r))
+            elif all(isinstance(x, float) for x in r):
+                out.append(array.array("d", r))
+            else:
+                out.append(r)
+        return out
+    if cont == "deque":
+        from collections import deque
+        return deque(deque(r) for r in rows)
+    if cont == "seq":
+        _register_seq()
+        return _Seq(_Seq(r) for r in rows)
+    if cont == "shared":  # equal rows are ONE list object
+        pool = {}
+        return [pool.setdefault(tuple(map(repr, r)), r) for r in rows]
+    return rows
+
+
+def _snapshot(inp):
+    return (type(inp).__name__, tuple((type(r).__name__, tuple((type(x).__name__, repr(x)) for x in r)) for r in inp))
 
 
 def call_impl(case):
     from solvor.hungarian import solve_hungarian
 
-    r = solve_hungarian(to_input(case), minimize=case["minimize"])
-    return {"solution": r.solution, "objective": r.objective, "iterations": r.iterations, "status": getattr(r.status, "name", str(r.status))}
+    mz = case["minimize"]
+
+    def obs(r):
+        return {"solution": r.solution, "objective": r.objective, "iterations": r.iterations, "status": getattr(r.status, "name", str(r.status))}
+
+    inp = to_input(case)
+    snap = _snapshot(inp)
+    notes = []
+    if case.get("seq") == "flipped_first":
+        solve_hungarian(inp, minimize=not mz)
+    v = obs(solve_hungarian(inp, minimize=mz))
+    if _snapshot(inp) != snap:
+        notes.append(("aliasing", "the caller's cost_matrix was modified by the call"))
+    if not case.get("big"):
+        again = obs(solve_hungarian(inp, minimize=mz))                       # same object, second call
+        if (again["solution"], repr(again["objective"])) != (v["solution"], repr(v["objective"])):
+            notes.append(("call-sequence", f"second call on the same input returns {again['solution']} / {again['objective']!r}"))
+        if case.get("seq"):
+            solve_hungarian(inp, minimize=not mz)                            # other option in between, same object
+            third = obs(solve_hungarian(inp, minimize=mz))
+            fresh = obs(solve_hungarian(to_input(case), minimize=mz))        # fresh object
+            for name, o in (("after a call with the other `minimize`", third), ("on a fresh copy of the input", fresh)):
+                if (o["solution"], repr(o["objective"])) != (v["solution"], repr(v["objective"])):
+                    notes.append(("call-sequence", f"{name} the answer is {o['solution']} / {o['objective']!r}"))
+        if _snapshot(inp) != snap:
+            notes.append(("aliasing", "the caller's cost_matrix was modified by a later call"))
+        if isinstance(v["solution"], list) and any(v["solution"] is r for r in inp):
+            notes.append(("aliasing", "the returned solution is one of the caller's row objects"))
+    v["notes"] = notes
+    return v
 
 
 def run_one(case):
-    res = guarded(call_impl, case, timeout=TIMEOUT)
+    res = guarded(call_impl, case, timeout=case.get("timeout", TIMEOUT))
     if res[0] != "ok":
         return {"outcome": res[0], "detail": list(res[1:])}
     v = res[1]
@@ -139,13 +540,15 @@ def run_one(case):
     if isinstance(sol, list) and all(isinstance(x, int) and not isinstance(x, bool) for x in sol):
         canon = list(sol)
     obj = v["objective"]
-    objs = None   # objective scaled by 2^shift, as an int, if it is one
+    objs = None    # objective scaled by 2^shift, as an int, if it is one
+    objx = None    # the same as an exact fraction "p/q" (inexact stream)
     if isinstance(obj, (int, float)) and not isinstance(obj, bool) and obj == obj and abs(obj) != float("inf"):
         fr = Fraction(obj) * (1 << case["shift"])
+        objx = f"{fr.numerator}/{fr.denominator}"
         if fr.denominator == 1:
             objs = int(fr)
-    return {"outcome": "ok", "solution": canon, "raw_solution": repr(sol)[:200], "objective": repr(obj), "obj_scaled": objs,
-            "iterations": v["iterations"], "status": v["status"]}
+    return {"outcome": "ok", "solution": canon, "raw_solution": repr(sol)[:200], "objective": repr(obj), "obj_scaled": objs, "obj_exact": objx,
+            "iterations": v["iterations"], "status": v["status"], "notes": v["notes"]}
 
 
 # ---------------------------------------------------------------- independent oracle (the property itself)
@@ -206,12 +609,31 @@ def oracle(case, out, enum_limit=6):
         return ("injective", f"a column is used twice: {a}")
     if len(cols) != min(nr, nc):
         return ("count", f"{len(cols)} rows assigned, expected min(rows, cols) = {min(nr, nc)}: {a}")
+    for clause, what in out.get("notes") or []:
+        return (clause, what)
     s = sum(num[i][x] for i, x in enumerate(a) if x != -1)
+    unit = 1 << case["shift"]
+    kind = "minimum" if case["minimize"] else "maximum"
+    if case.get("inexact"):
+        # entries / sums not exactly representable in binary64: the property's tolerance (1e-9, relative to the scale of the data)
+        scale = max([unit] + [abs(x) for r in num for x in r])
+        tol = Fraction(scale) * (nr + nc) / 10**9
+        if out["obj_exact"] is None or abs(Fraction(out["obj_exact"]) - s) > tol:
+            return ("objective", f"objective {out['objective']} differs from the sum of the chosen entries ({float(Fraction(s, unit))!r}) by more than 1e-9 relative")
+        best, _ = best_value(num, case["minimize"], enum_limit)
+        if abs(s - best) > tol:
+            return ("optimal", f"chosen entries sum to {float(Fraction(s, unit))!r} but the {kind} over all matchings is {float(Fraction(best, unit))!r}")
+        return None
     if out["obj_scaled"] is None or out["obj_scaled"] != s:
-        return ("objective", f"objective {out['objective']} is not the sum of the chosen entries ({Fraction(s, 1 << case['shift'])})")
-    best, _ = best_value(num, case["minimize"], enum_limit)
+        return ("objective", f"objective {out['objective']} is not the sum of the chosen entries ({Fraction(s, unit)})")
+    if "expect_opt" in case:
+        best = case["expect_opt"]        # known by construction (structured large instance)
+    else:
+        best, _ = best_value(num, case["minimize"], enum_limit)
     if s != best:
-        return ("optimal", f"objective {Fraction(s, 1 << case['shift'])} but the {'minimum' if case['minimize'] else 'maximum'} over all matchings is {Fraction(best, 1 << case['shift'])}")
+        return ("optimal", f"objective {Fraction(s, unit)} but the {kind} over all matchings is {Fraction(best, unit)}")
+    if "expect_assign" in case and a != case["expect_assign"]:
+        return ("optimal", f"the optimum is unique by construction ({case['expect_assign'][:8]}...) but {a[:8]}... was returned")
     return None
 
 
@@ -232,7 +654,7 @@ def shrink(case, enum_limit, budget_s=20.0):
         return oracle(c, run_one(c), enum_limit) is not None
 
     cur = case
-    changed = True
+    changed = "expect_opt" not in case
     while changed:
         changed = False
         num = cur["num"]
@@ -253,7 +675,12 @@ def shrink(case, enum_limit, budget_s=20.0):
         for i in range(len(num)):
             for j in range(len(num[0])):
                 x = num[i][j]
-                for y in ([0] if x else []) + ([x - 1] if x > 0 else [x + 1] if x < 0 else []):
+                # candidates keep the float computation exact: 0, another entry of the matrix, or (only while every path sum
+                # stays below 2^53 in units of 2^-shift) one step towards 0
+                cands = ([0] if x else []) + [z for z in sorted({w for r in num for w in r}, key=abs) if abs(z) < abs(x)][:2]
+                if not case.get("inexact") and (max(abs(w) for r in num for w in r) + 1) * (2 * (len(num) + len(num[0])) + 2) < 2**53:
+                    cands += [x - 1] if x > 0 else [x + 1] if x < 0 else []
+                for y in cands:
                     if y == x:
                         continue
                     n2 = [list(r) for r in num]
@@ -281,7 +708,7 @@ def coq_case(case, out):
         obs = "None"
     else:
         obs = f"(Some ({clist(a, cz)}, {cz(objs)}))"
-    return f"(({cmat(case['num'])}, {cbool(case['minimize'])}), {obs})"
+    return f"(({cmat(case['num'])}, {cbool(bool(case['minimize']))}), {obs})"
 
 
 CASE_T = "(list (list Z) * bool) * option (list Z * Z)"
@@ -296,13 +723,17 @@ def _corpus():
     if d.exists():
         for f in sorted(d.glob("*.json")):
             o = json.loads(f.read_text())
-            out.append({"num": o["num"], "shift": o.get("shift", 0), "minimize": o.get("minimize", True),
-                        "as_float": o.get("as_float", False), "kind": "corpus:" + f.stem})
+            c = {"num": o["num"], "shift": o.get("shift", 0), "minimize": o.get("minimize", True),
+                 "as_float": o.get("as_float", False), "kind": "corpus:" + f.stem}
+            for k in ("container", "inexact", "nocoq", "seq"):
+                if k in o:
+                    c[k] = o[k]
+            out.append(c)
     return out
 
 
 def _canon(case):
-    return json.dumps([case["num"], case["shift"], case["minimize"]])
+    return json.dumps([case["num"], case["shift"], bool(case["minimize"]), case.get("container", "list"), str(case.get("as_float"))])
 
 
 def run(ctx: Ctx):
@@ -312,7 +743,12 @@ def run(ctx: Ctx):
                 "0x0, rx0, 1xn, nx1; square, rows>cols, cols>rows), entries from tiny integer ranges with many ties (constant, duplicate "
                 "rows/cols, rank-one a_i+b_j, 0/1), negative-only, positive-only, |c|<=1e6, dyadic k/2^s; minimize and maximize; ints and "
                 "floats. non-trivial = at least 2 rows and 2 columns and the inner while loop ran more often than there are padded rows "
-                "(some augmenting path went through an already matched column; read from Result.iterations); distinct = (matrix, shift, minimize)")
+                "(some augmenting path went through an already matched column; read from Result.iterations); distinct = (matrix, shift, minimize, "
+                "container, number type). Round-2 families: M exact magnitudes (k*2^e for e=31..200, 1e9, 2^31, 2^44+k, 2^53-k single row, "
+                "base+k*2^-42, differences 2^-30..2^-48), Mx inexact (ints > 2^53, decimal floats; 1e-9 tolerance, no Coq), I containers "
+                "(tuple, list of tuples, range rows, array.array, deque, minimal user Sequence, shared row objects), O minimize in {0,1,True,False}, "
+                "A input unchanged + second call + interleaved other-option call + fresh copy on EVERY small case, S planted optimum for "
+                "17..257 (thorough 400) rows and 1x257 / 257x1, H event-directed cases from an instrumented port")
     ctx.notes += [
         "float idealisation: the code only adds, subtracts and compares costs; all operations are linear in the cost entries, so "
         "running it on k/2^s equals running it on the integers k and dividing potentials/slacks/objective by 2^s; binary64 is exact on "
@@ -326,10 +762,27 @@ def run(ctx: Ctx):
         "potentials, by vm_compute in coqc) is kept as a redundant per-run certificate; the correspondence lemma shows the model's answer "
         "equal to the implementation's answer on the cases of this run.",
         "Result.iterations / evaluations / status are not part of the property and not compared (iterations is used only to classify cases).",
+        "magnitudes: the exact M families only contain matrices on which every intermediate value is a small multiple of one power of two "
+        "or stays below 2^53, so binary64 is exact and the Z model must agree exactly; inputs on which binary64 rounds (ints beyond 2^53, "
+        "decimal floats) are judged against the exact rational optimum with tolerance 1e-9 * scale * (rows+cols) and are not sent to Coq.",
+        "structured large instances: optimum (and the unique optimal assignment) known by construction c_ij = a_i + b_j + e_ij, e = 0 on the "
+        "planted matching, e >= 1 elsewhere; sizes above 40 are not sent to Coq.",
+        "the instrumented port used for event-directed generation judges nothing; its cases go through the same oracle and correspondence.",
     ]
     ctx.proof_step(["C10"])
 
     cases = _corpus() + fixed_cases() + [gen_case(ctx.rng, big) for _ in range(ctx.budget(600, 6000))]
+    cases += [gen_magnitude(ctx.rng) for _ in range(ctx.budget(150, 1500))]
+    cases += [gen_inexact(ctx.rng) for _ in range(ctx.budget(60, 600))]
+    cases += [gen_iterable(ctx.rng) for _ in range(ctx.budget(100, 1000))]
+    cases += [gen_option(ctx.rng) for _ in range(ctx.budget(60, 600))]
+    hcases, hhist = event_directed(ctx.rng, ctx.budget(1500, 15000), ctx.budget(150, 600))
+    cases += hcases
+    ctx.extra["events_reached"] = hhist
+    for k, c in enumerate(cases):          # A: interleaved calls with the other option value on every third small case
+        if "seq" not in c and not c.get("big") and k % 3 == 0:
+            c["seq"] = "plain" if k % 2 else "flipped_first"
+    cases += structured_cases(ctx.rng, big)
     results = pmap(judge, [(c, enum_limit) for c in cases])
 
     coq_cases, metas = [], []
@@ -342,7 +795,10 @@ def run(ctx: Ctx):
         ctx.count("shape", "square" if nr == nc else ("rows>cols" if nr > nc else "cols>rows"))
         ctx.count("n", max(nr, nc))
         ctx.count("kind", case["kind"].split(":")[0])
-        ctx.count("minimize", case["minimize"])
+        ctx.count("minimize", repr(case["minimize"]))
+        ctx.count("container", case.get("container", "list"))
+        ctx.count("numbers", "inexact" if case.get("inexact") else ("float" if case["shift"] else str(case.get("as_float"))))
+        ctx.count("call_sequence", case.get("seq", "twice") if not case.get("big") else "once")
         ctx.count("outcome", out["outcome"] if out["outcome"] != "ok" else out.get("status"))
         if bad:
             if len(ctx.violations) >= 5:
@@ -352,13 +808,17 @@ def run(ctx: Ctx):
                 o2 = run_one(small)
                 b2 = oracle(small, o2, enum_limit) or bad
                 ctx.violation(f"solve_hungarian violates C10 ({b2[0]}): {b2[1]}",
-                              {"case": small, "input": repr(to_input(small)), "impl": o2, "original_case": case})
+                              {"case": small, "input": repr(to_input(small))[:2000], "impl": o2, "original_case": case if max(nr, nc) <= 12 else case["kind"]})
+        elif "expect_opt" in case:
+            ctx.count("optimum_by", "construction")
         else:
-            best, how = best_value(num, case["minimize"], enum_limit) if nr and nc else (0, "empty")
-            ctx.count("optimum_by", how)
+            ctx.count("optimum_by", "empty" if not (nr and nc) else ("enum" if max(nr, nc) <= enum_limit else "dp"))
         if out["outcome"] == "ok" and nr >= 2 and nc >= 2 and out["iterations"] > max(nr, nc):
             ctx.nontriv(_canon(case))
-        ctx.sample({"matrix": to_input(case), "minimize": case["minimize"], "solution": out.get("solution"), "objective": out.get("objective")})
+        if max(nr, nc) <= 8:
+            ctx.sample({"matrix": _values(case), "minimize": case["minimize"], "solution": out.get("solution"), "objective": out.get("objective")})
+        if case.get("nocoq"):
+            continue
         coq_cases.append(coq_case(case, out))
         metas.append((case, out))
         spec_cases.append(coq_case(case, out))
